@@ -38,6 +38,15 @@ META = dict(
 GRAD_CONVERGED = 1e-10
 TOL_CONT = 1e-7
 TOL_DISC = 1e-6
+EXPLICIT_MINIMAL = {   # stand-alone reproduction: damped pendulum pressed into its joint limit, damper disabled
+    "xml": '<mujoco><option integrator="Euler" tolerance="0" iterations="200"><flag damper="disable" invdiscrete="enable"/></option>'
+           '<worldbody><body><joint type="hinge" axis="0 1 0" damping="5" limited="true" range="-1 0.1"/>'
+           '<geom type="capsule" fromto="0 0 0 0.3 0 0" size="0.02"/></body></worldbody></mujoco>',
+    "qpos": [0.2], "qvel": [1.0], "qfrc_applied": [0.3],
+    "procedure": "mj_step; qacc := (qvel+ - qvel)/h (== forward qacc, the step is explicit); restore qpos,qvel; mj_inverse",
+    "observed": "qfrc_inverse = -14.17, efc_force = [0]",
+    "expected": "qfrc_inverse = 0.3 (= qfrc_applied), efc_force = [8.5527] (forward value; obtained when invdiscrete is off)",
+}
 CONE_NAME = {0: "pyramidal", 1: "elliptic"}
 MODES = [  # name, integrator, disable flags
     ("Euler", C.INT_EULER, 0),
@@ -77,7 +86,7 @@ def check_state(lib, host, part, st, cone, jac, ident, thorough):
               "mode": mode, "xml": host.xml}
         if extra:
             rp.update(extra)
-        part.violation("%s | mode=%s cone=%s" % (what, mode, cname),
+        C.report(part, "%s | mode=%s cone=%s" % (what, mode, cname),
                        "%s: %s (mode=%s cone=%s jacobian=%s mix=%s eq=%s skel=%s state=%s)" % (
                            what, detail, mode, cname, "sparse" if jac else "dense", "+".join(host.atoms), host.eqkind,
                            host.skel, st), rp)
@@ -94,13 +103,9 @@ def check_state(lib, host, part, st, cone, jac, ident, thorough):
         part.count(1)
         part.add("no_constraint_rows")
         return
-    if not _converged(d):
-        part.count(1)
-        part.add("not_converged")
-        return
+    conv = _converged(d)
     qacc = np.array(d.qacc)
     f_fwd = np.array(d.efc_force[:nefc])
-    qc_fwd = np.array(d.qfrc_constraint)
     tau = np.array(d.qfrc_applied) + C.xfrc_joint(lib, m, d) + np.array(d.qfrc_actuator)
     law = C.Law(m, d)
     J = C.dense_J(m, d)
@@ -110,17 +115,23 @@ def check_state(lib, host, part, st, cone, jac, ident, thorough):
         bad("inverse builds a different constraint set", "continuous", "nefc %d vs %d" % (int(d.nefc), nefc))
         return
     qs = _scales(lib, m, d, tau, qacc)
-    fs = max(1.0, float(np.abs(f_fwd).max()))
+    fs = max(1.0, float(np.abs(f_fwd).max()), float(np.abs(f_ref).max()))
+    # the analytic inverse does not depend on the forward solver having converged: checked at every returned qacc
+    e_r = float(np.abs(np.array(d.efc_force[:nefc]) - f_ref).max()) / fs
+    _hist(part, "law", e_r)
+    if not e_r <= TOL_CONT:
+        bad("inverse efc_force != documented analytic inverse", "continuous", "rel err %.3g" % e_r)
+    if not conv:
+        part.count(1)
+        part.add("not_converged")
+        return
     e_q = float(np.abs(np.array(d.qfrc_inverse) - tau).max()) / qs
     e_f = float(np.abs(np.array(d.efc_force[:nefc]) - f_fwd).max()) / fs
-    e_r = float(np.abs(np.array(d.efc_force[:nefc]) - f_ref).max()) / fs
-    _hist(part, "cont", max(e_q, e_f, e_r))
+    _hist(part, "cont", max(e_q, e_f))
     if not e_q <= TOL_CONT:
         bad("qfrc_inverse != applied + J'xfrc + actuator", "continuous", "rel err %.3g" % e_q)
     if not e_f <= TOL_CONT:
         bad("inverse efc_force != forward efc_force", "continuous", "rel err %.3g" % e_f)
-    if not e_r <= TOL_CONT:
-        bad("inverse efc_force != documented analytic inverse", "continuous", "rel err %.3g" % e_r)
     nontriv = bool(np.any(f_fwd != 0))
     part.count(1, key=(ident, cone, jac, st, "cont") if nontriv else None,
                sample=({"skel": host.skel, "atoms": host.atoms, "eq": host.eqkind, "state": st, "cone": cname, "nefc": nefc,
@@ -186,8 +197,8 @@ def check_state(lib, host, part, st, cone, jac, ident, thorough):
             c_f = float(np.abs(np.array(d.efc_force[:nefc2]) - f_step).max()) / fs2
             if explicit and c_q <= TOL_DISC and c_f <= TOL_DISC:
                 rp = {"skel": host.skel, "atoms": host.atoms, "eq": host.eqkind, "state": st, "cone": cone, "jacobian": jac,
-                      "mode": name, "xml": host.xml, "qacc": qacc_disc}
-                part.violation("invdiscrete converts the acceleration of an explicitly integrated step | mode=%s" % name,
+                      "mode": name, "xml": host.xml, "qacc": qacc_disc, "minimal_standalone_repro": EXPLICIT_MINIMAL}
+                C.report(part, "invdiscrete converts the acceleration of an explicitly integrated step | mode=%s" % name,
                                "mode=%s: mj_step integrated qvel explicitly ((qvel+ - qvel)/h == qacc), yet mj_inverse with "
                                "mjENBL_INVDISCRETE rescales qacc: qfrc_inverse rel err %.3g, efc_force rel err %.3g; without the flag "
                                "the same qacc gives %.3g / %.3g (mix=%s eq=%s skel=%s cone=%s state=%s)" % (
@@ -212,17 +223,17 @@ def _chunk(chunk):
         try:
             host = C.Host(lib, skel, atoms, eqkind)
         except mj.MjError as e:
-            part.violation("host model does not compile", "skel=%s mix=%s eq=%s: %s" % (skel, atoms, eqkind, e),
+            C.report(part, "host model does not compile", "skel=%s mix=%s eq=%s: %s" % (skel, atoms, eqkind, e),
                            {"skel": skel, "atoms": atoms, "eq": eqkind})
             continue
-        states = host.state_space(nq=2, nvel=3) if thorough else [s for s in host.state_space(nq=2, nvel=2) if s[0] == 1]
+        states = host.state_space(nq=2, nvel=3) if thorough else [s for s in host.state_space(nq=2, nvel=3) if s[0] == 1 and s[1] != 0]
         for cone in (C.CONE_PYRAMIDAL, C.CONE_ELLIPTIC):
             for jac in (C.JAC_DENSE, C.JAC_SPARSE):
                 for st in states:
                     try:
                         check_state(lib, host, part, st, cone, jac, (skel, mi), thorough)
                     except mj.MjError as e:
-                        part.violation("engine error | cone=%s" % CONE_NAME[cone], "mju_error: %s" % e,
+                        C.report(part, "engine error | cone=%s" % CONE_NAME[cone], "mju_error: %s" % e,
                                        {"skel": skel, "atoms": atoms, "eq": eqkind, "state": st, "cone": cone,
                                         "jacobian": jac, "xml": host.xml})
                         host.d.free()
@@ -245,8 +256,22 @@ def run(ctx):
                 "(model, cone, jacobian, state, mode) with a non-zero constraint force (discrete modes: and a discrete acceleration "
                 "that differs from the continuous one)"
                 % (skels, C.CONTACT_DIST, C.LIMIT_STATE_NAME,
-                   "2 configurations x 3 velocity patterns" if ctx.thorough else "bent configuration x 2 velocity patterns",
+                   "2 configurations x 3 velocity patterns" if ctx.thorough else "bent configuration x 2 non-zero velocity patterns",
                    ", ".join(n for n, _, _ in MODES)))
     ctx.assumptions = ["forward solve counted as converged iff the last recorded Newton gradient < 1e-10 (tolerance 0, 200 iterations)",
                        "J'xfrc_applied recomputed with mj_jac at xipos (C07)", "RK4 excluded (statement)",
                        "thresholds 1e-7 (continuous) / 1e-6 (discrete, finite-differenced qacc) relative to the largest term of the equation of motion"]
+
+
+def replay(ctx, path):
+    """./check C09 --replay <file>: re-run the recorded (model, state, cone, jacobian) through all modes."""
+    import json
+    r = json.load(open(path))["replay"]
+    lib = mj.load()
+    host = C.Host(lib, r["skel"], tuple(r["atoms"]), r["eq"])
+    part = core.Part()
+    check_state(lib, host, part, tuple(r["state"]), int(r["cone"]), int(r["jacobian"]), (r["skel"], 0), True)
+    for v in part["violations"]:
+        print("VIOLATION-REPLAY %s\n  %s" % (v["key"], v["what"]))
+    print("replay: %d evaluations, %d violations" % (part["evaluations"], len(part["violations"])))
+    return 1 if part["violations"] else 0
